@@ -56,6 +56,8 @@ func checkC01(c *Ctx) {
 		r.Unres("R01a", "emitted server runtime", "", err.Error())
 		return
 	}
+	r.Rule("R01i", "the handler's request message is allocated per request (shared with C02/R02l): a request that carries fewer URL values than its predecessor is not completed from it", 1)
+	requestAllocatedPerRequest(c, ep, "R01i")
 	sconsts := map[string]string{}
 	for _, ef := range ep.Files {
 		for k, v := range constStrings(ef.AST) {
